@@ -35,7 +35,7 @@ func init() {
 	engine.Register(&engine.Check{
 		ID:         "C07",
 		Technique:  "exhaustive enumeration of hostile inbound frame sequences (small-scope fragment sequences, all single field mutations and truncations of valid packets, short noise) against the real stack in the deterministic world, worker-isolated; liveness probes after every sequence",
-		Rule:       "fragments: all sequences of length <=2 (thorough 3) over offset {0,8,16,65528} x length {0,8,16,24} x MF {0,1} x id {1,2}; mutations: for each of 15 valid templates (ARP, ICMPv4 echo / unreachable, UDP, TCP SYN/ACK/data/RST to listener, connection and closed port, IPv6 counterparts incl. NS/NA and packet-too-big) every length/offset/count/flag field set to each boundary value and every truncation length; noise: every byte string of length <=2 and fills of every length 0..80 under each ethertype; each template and each of its field mutations delivered in two views cut at every byte (quick: mutations cut within bytes 20..104) and, for IPv4, as two fragments cut at every 8-byte boundary in both arrival orders; pairs of a 24-letter digest; the same runt/short frames through the repository's fd-based Ethernet endpoint over a socketpair; distinct = distinct sequence; all non-trivial",
+		Rule:       "fragments: all sequences of length <=2 (thorough 3) over offset {0,8,16,65528} x length {0,8,16,24} x MF {0,1} x id {1,2}; mutations: for each of 15 valid templates (ARP, ICMPv4 echo / unreachable, UDP, TCP SYN/ACK/data/RST to listener, connection and closed port, IPv6 counterparts incl. NS/NA and packet-too-big) every length/offset/count/flag field set to each boundary value and every truncation length; noise: every byte string of length <=2 and fills of every length 0..80 under each ethertype; each template and each of its field mutations delivered in two views cut at every byte (quick: mutations cut within bytes 20..104) and, for IPv4, as two fragments cut at every 8-byte boundary in both arrival orders; every 3-byte (thorough: 4-byte) TCP option area over a 12-symbol alphabet on a SYN to the listener and on a data segment of the connection; pairs of a 24-letter digest; the same runt/short frames through the repository's fd-based Ethernet endpoint over a socketpair; distinct = distinct sequence; all non-trivial",
 		Assumes:    []string{"inputs are injected at the link layer of one NIC; reassembly timeouts are not advanced inside a sequence"},
 		Jobs:       c07Jobs,
 		Run:        c07Run,
@@ -565,6 +565,9 @@ func c07Jobs(tier string) []string {
 	for i := 0; i < 15; i++ {
 		jobs = append(jobs, fmt.Sprintf("split:%d", i))
 	}
+	for i := 0; i < 16; i++ {
+		jobs = append(jobs, fmt.Sprintf("opts:%d/16", i))
+	}
 	return jobs
 }
 
@@ -635,6 +638,45 @@ func c07Seqs(job, tier string) ([][]c07Frame, string) {
 			}
 		}
 		return seqs, "template " + ts[ti].name + " and its field mutations delivered in two views / two IPv4 fragments at every cut"
+	case "opts":
+		// every TCP option area of 4 bytes over a 12-symbol alphabet (all kinds the parsers know,
+		// unknown kinds, length bytes 0/1/2/3/4/10/40/255), on a SYN to the listener, on a SYN to
+		// a closed port and on a data segment of the established connection
+		var i, n int
+		fmt.Sscanf(parts[1], "%d/%d", &i, &n)
+		c, err := c07NewWorld()
+		if err != nil {
+			return nil, "harness: " + err.Error()
+		}
+		s4, p4 := c.r.sAddr, c.r.pAddr
+		connSeq, connAck := c.connSeq, c.connAck
+		c.close()
+		alpha := []byte{0, 1, 2, 3, 4, 5, 8, 10, 40, 0xfd, 0xfe, 0xff}
+		k := 0
+		for a := range alpha {
+			for b := range alpha {
+				for d := range alpha {
+					for e := range alpha {
+						if tier != "thorough" && alpha[e] != 0 && alpha[e] != 1 {
+							continue // quick: every 3-byte area, closed by an end-of-list or a no-op byte
+						}
+						k++
+						if k%n != i {
+							continue
+						}
+						o := []byte{alpha[a], alpha[b], alpha[d], alpha[e]}
+						ip4 := func(payload []byte) []byte { return ref.BuildIPv4(p4, s4, ref.ProtoTCP, 99, 0, 0, 64, payload) }
+						seqs = append(seqs,
+							[]c07Frame{{Proto: ref.EtherIPv4, Data: ip4(ref.BuildTCP(uint16(46000+k%1000), c07ListenPort, 5, 0, ref.SYN, 1000, o, nil, p4, s4))}},
+							[]c07Frame{{Proto: ref.EtherIPv4, Data: ip4(ref.BuildTCP(40000, c07ListenPort, connSeq, connAck, ref.ACK|ref.PSH, 1000, o, []byte("d"), p4, s4))}})
+						if tier == "thorough" {
+							seqs = append(seqs, []c07Frame{{Proto: ref.EtherIPv4, Data: ip4(ref.BuildTCP(uint16(46000+k%1000), 81, 5, 0, ref.SYN, 1000, o, nil, p4, s4))}})
+						}
+					}
+				}
+			}
+		}
+		return seqs, "all 4-byte TCP option areas over a 12-symbol alphabet on SYNs and data segments"
 	case "noise":
 		for _, f := range c07Noise() {
 			seqs = append(seqs, []c07Frame{f})
